@@ -36,7 +36,7 @@ TIERS = {
 }
 STATE_MEASURE = 'distinct (path class, fault kind, compression, query kind) tuples'
 SECRET = b'OUTSIDE-SECRET-'
-SEGS = ['a.txt', 'sub', 'deep', 'b.txt', 'c.bin', '..', '..', '.', '', 'root', 'root2', 'inner.txt', 'outside.txt',
+SEGS = ['a.txt', 'sub', 'deep', 'b.txt', 'c.bin', '..', '..', '.', '', 'root', 'root2', 'inner.txt', 'outside.txt', 'tree', 'key.txt',
         'nosuch', '%2e%2e', '%2E%2E', '..%2f', 'index.html', 'rootsecret.txt', '...', '..a', 'sp ace']
 QUERIES = ['x=1', '/../outside.txt', 'a.txt', '', '?', 'p=/a.txt&q=..',
            # queries that, were they taken for path segments, would lead back into the root or out of it
@@ -78,12 +78,13 @@ def setup_worker(job: Dict[str, Any]) -> None:
     root = os.path.join(base, 'root')
     os.makedirs(os.path.join(root, 'sub', 'deep'), exist_ok=True)
     os.makedirs(os.path.join(base, 'root2'), exist_ok=True)
+    os.makedirs(os.path.join(base, 'tree'), exist_ok=True)      # a sibling whose name is as long as the root's
     import random
     r = random.Random(13)
     files = {
         'root/index.html': b'<html>index</html>', 'root/a.txt': b'A-inside', 'root/sub/b.txt': b'B-inside' * 40,
         'root/sub/deep/c.bin': r.randbytes(3000), 'root/root': b'file-named-root',
-        'outside.txt': SECRET + b'1', 'root2/inner.txt': SECRET + b'2', 'rootsecret.txt': SECRET + b'3',
+        'outside.txt': SECRET + b'1', 'root2/inner.txt': SECRET + b'2', 'tree/key.txt': SECRET + b'5', 'rootsecret.txt': SECRET + b'3',
         'root/sp ace': b'space',
     }
     for rel, data in files.items():
@@ -118,7 +119,7 @@ def run_one(tape: Any, cfg: Dict[str, Any], forbid: FrozenSet[str] = frozenset()
             ups = ['..'] * tape.draw(5, 'ups')
             tail = [['a.txt'], ['outside.txt'], ['root2', 'inner.txt'], ['rootsecret.txt'], ['root', 'a.txt'],
                     ['sub', 'b.txt'], ['parent.txt'], ['root', 'sub', 'deep', 'c.bin'], ['..', 'parent.txt'],
-                    ['c13', 'outside.txt'], []][tape.draw(11, 'tail')]
+                    ['c13', 'outside.txt'], [], ['tree', 'key.txt']][tape.draw(12, 'tail')]
             segs = down + ups + tail
         else:
             nseg = 1 + tape.small(6, 'nseg')
